@@ -1,4 +1,4 @@
-\* generated by the builder of C02/C08; see MCSearchers.tla for the families
+\* generated with the builder script of C02/C08; families: MCSearchers.tla
 SPECIFICATION Spec
 CONSTANTS
   SegSizes <- Segs212
@@ -8,7 +8,9 @@ CONSTANTS
   HeapTakeover = 10
   MaxCalls = 0
   NTerms = 2
-  Queries <- QFlat2NoK1
+  Family = "flat2"
+  DropK1 = TRUE
+  Queries <- MCQueries
   FirstAdvanceOK <- FirstAdvNoQ2
 VIEW View
 INVARIANT EnumIsHits
